@@ -8,6 +8,20 @@ VERIF = os.path.dirname(os.path.dirname(os.path.abspath(__file__)))
 sys.path.insert(0, VERIF)
 import contracts
 props = [json.loads(l) for l in open(os.path.join(VERIF, "properties.jsonl"))]
+
+
+def under_contract(spec):
+    """The complete list of functions under contract for this property (each verified on its real body against its contract, for every
+    input of the scenario space its unit enumerates; see DESIGN 11.7) - appended to the hand-written claim so that the two never drift."""
+    names = []
+    for u in spec.UNITS:
+        n = u.target.split(":", 1)[1].replace("ArgumentParser.validate.<locals>.", "validate/").replace(".<locals>.", "/")
+        if "@if(" in n:
+            n = n.split("@if(")[0] + "[" + (u.label or "arm") + "]"
+        if n not in names:
+            names.append(n)
+    lem = [l.name.split("lemma:")[-1] for l in getattr(spec, "LEMMAS", [])]
+    return " || Functions under contract (" + str(len(names)) + "): " + ", ".join(names) + ("; lemmas: " + ", ".join(lem) if lem else "") + "."
 checks, na, engines_props = [], [], []
 for p in props:
     pid = p["id"]
@@ -27,7 +41,7 @@ for p in props:
         "evidence_file": f"evidence/{pid}.json",
         "replay_cmd_template": "./check replay {path}",
         "engine": "pyvc",
-        "level_claimed": {"category": spec.LEVEL, "text": spec.LEVEL_TEXT, "design_ref": f"DESIGN.md section 5 ({pid})"},
+        "level_claimed": {"category": spec.LEVEL, "text": spec.LEVEL_TEXT + under_contract(spec), "design_ref": f"DESIGN.md section 5 ({pid}) and section 11 (as built)"},
         "level_note": contracts.text_of(spec, "LEVEL_NOTE"),
         "technique": spec.TECHNIQUE,
     })
